@@ -35,7 +35,7 @@ RULE = ("For each synthesized/random audio and parameter set, split() is run on 
         "beyond the end).  Non-trivial = reference has >=1 region; distinct = distinct (audio, parameters, container, spelling).")
 ASSUMPTIONS = [
     "the AudioReader container is compared only when floor(w*rate)/rate == w (otherwise durations are legitimately counted in the reader's shorter block)",
-    "the microphone container (input=None) needs PyAudio, which is not installed: not covered",
+    "the microphone container (input=None) is driven through a stand-in pyaudio module (vf/fakepyaudio.py); a real device is not covered",
     "held means: held on the executions listed in coverage",
 ]
 
